@@ -212,7 +212,17 @@ pub fn run_tree(ctx: &Ctx, out: &mut Outcome, depth: usize, oracle: TreeOracle) 
 /// which walks through every row of the table (19 061 rows < 65 536); each program continues with the
 /// opcodes that consume the name (REDUCE, INST) so that every oracle sees what the row does to the machine.
 pub fn run_rows(ctx: &Ctx, out: &mut Outcome, oracle: TreeOracle) {
-    let scripts: Vec<Vec<u8>> = vec![vec![t::GLOBAL], vec![t::GLOBAL, t::MARK, t::TUPLE, t::REDUCE], vec![t::MARK, t::NONE, t::INST]];
+    let mut scripts: Vec<Vec<u8>> = vec![vec![t::GLOBAL], vec![t::GLOBAL, t::MARK, t::TUPLE, t::REDUCE], vec![t::MARK, t::NONE, t::INST]];
+    if oracle == TreeOracle::C03 {
+        // ... and, for the operand-kind property, every container-mutating opcode offered on the REDUCE result
+        // (a script whose last opcode is not a candidate - the normal case - is skipped)
+        let reduce = [t::GLOBAL, t::MARK, t::TUPLE, t::REDUCE];
+        for tail in [vec![t::NONE, t::APPEND], vec![t::NONE, t::NONE, t::SETITEM], vec![t::MARK, t::NONE, t::APPENDS], vec![t::MARK, t::NONE, t::NONE, t::SETITEMS], vec![t::MARK, t::NONE, t::ADDITEMS], vec![t::NONE, t::BUILD]] {
+            let mut s = reduce.to_vec();
+            s.extend(tail);
+            scripts.push(s);
+        }
+    }
     let mut total = 0u64;
     let mut unfollowed = 0u64;
     let mut distinct: HashSet<u64> = HashSet::new();
